@@ -411,8 +411,8 @@ type Pair struct {
 	CancelOnReturn bool
 	ccancel        context.CancelFunc
 	CName          string
-	SName    string
-	Env      *Env
+	SName          string
+	Env            *Env
 }
 
 // NewPair creates sockets and both Conns (no handshake yet).
